@@ -74,34 +74,34 @@ Edges     == Cardinality({p \in 1..NP(n) : w[p] > 0})
 
 \* the degree sequence: number of neighbours (weights play no role)
 GraphDeg == [u \in 1..n |-> Cardinality(Nbr(u))]
-Deg == deg
-NN  == Len(Deg)
-Kmx == SetMax({Deg[u] : u \in 1..NN})
+NN  == Len(deg)
+Kmx == SetMax({deg[u] : u \in 1..NN})
 
 \* degree histogram and the degrees that occur, ascending
-Cnt(k)  == Cardinality({u \in 1..NN : Deg[u] = k})
+Cnt(k)  == Cardinality({u \in 1..NN : deg[u] = k})
 Present == SelectSeq([i \in 1..(Kmx + 1) |-> i - 1], LAMBDA k : Cnt(k) > 0)
 
 \* Pk[k] = proportion of nodes of degree k
 Pk(k)  == Red(<<Cnt(k), NN>>)
-PkList == [i \in 1..Len(Present) |-> <<Present[i], Pk(Present[i])[1], Pk(Present[i])[2]>>]
+PkList == LET pr == Present
+          IN  [i \in 1..Len(pr) |-> <<pr[i], Pk(pr[i])[1], Pk(pr[i])[2]>>]
 
 \* moments:  <k> = M1/NN,  <k^2 - k> = M2/NN
-M1 == SeqSum(Deg)
-M2 == SeqSum([u \in 1..NN |-> Deg[u] * (Deg[u] - 1)])
+M1 == SeqSum(deg)
+M2 == SeqSum([u \in 1..NN |-> deg[u] * (deg[u] - 1)])
 
 \* Pnk[k1][k2] = proportion of the neighbours of degree-k1 nodes that have degree k2:
 \* ordered adjacent pairs (u,v) with deg u = k1, deg v = k2 over all k1*Cnt(k1)
 \* neighbour slots of degree-k1 nodes.  Defined for k1 >= 1 only.
 Pairs(k1, k2) == Cardinality({p \in (1..n) \X (1..n) :
-                                 Adj(p[1], p[2]) /\ Deg[p[1]] = k1 /\ Deg[p[2]] = k2})
+                                 Adj(p[1], p[2]) /\ deg[p[1]] = k1 /\ deg[p[2]] = k2})
 Pnk(k1, k2)   == Red(<<Pairs(k1, k2), k1 * Cnt(k1)>>)
 PnkRow(k1)    == LET ks == SelectSeq(Present, LAMBDA k2 : Pairs(k1, k2) > 0)
                  IN  [i \in 1..Len(ks) |-> <<ks[i], Pnk(k1, ks[i])[1], Pnk(k1, ks[i])[2]>>]
 \* the row of degree 0 ("neighbours of nodes without neighbours") is left empty:
 \* the specification says nothing about it
-PnkList == [i \in 1..Len(Present) |->
-               <<Present[i], IF Present[i] = 0 THEN << >> ELSE PnkRow(Present[i])>>]
+PnkList == LET pr == Present
+           IN  [i \in 1..Len(pr) |-> <<pr[i], IF pr[i] = 0 THEN << >> ELSE PnkRow(pr[i])>>]
 
 \* --- polynomials as coefficient lists: c[i] is the coefficient of x^(i-1) ---
 Coef == [i \in 1..(Kmx + 1) |-> Cnt(i - 1)]          \* NN * psi
@@ -128,7 +128,10 @@ PsiPP(x) == PolyAt(D(D(Coef)), x)
 \* R0 = T <k^2-k>/<k>; undefined when there is no edge end at all
 R0(T) == IF M1 = 0 THEN <<0, 0>> ELSE Red(<<T[1] * M2, T[2] * M1>>)
 
-EvalTab == [i \in 1..Len(XS) |-> <<XS[i], Psi(XS[i]), PsiP(XS[i]), PsiPP(XS[i])>>]
+EvalTab == LET c   == Coef
+               dc  == D(c)
+               ddc == D(dc)
+           IN  [i \in 1..Len(XS) |-> <<XS[i], PolyAt(c, XS[i]), PolyAt(dc, XS[i]), PolyAt(ddc, XS[i])>>]
 R0List  == [i \in 1..Len(TS) |-> <<TS[i], R0(TS[i])>>]
 
 -----------------------------------------------------------------------------
@@ -138,9 +141,10 @@ One == <<1, 1>>
 
 \* get_Pk sums to 1 and is the degree histogram
 PkSumsToOne ==
+    LET pl == PkList IN
     /\ SeqSum(Coef) = NN
-    /\ SeqSum([i \in 1..Len(PkList) |-> PkList[i][2] * (NN \div PkList[i][3])]) = NN
-    /\ \A i \in 1..Len(PkList) : NN * PkList[i][2] = Cnt(PkList[i][1]) * PkList[i][3]
+    /\ SeqSum([i \in 1..Len(pl) |-> pl[i][2] * (NN \div pl[i][3])]) = NN
+    /\ \A i \in 1..Len(pl) : NN * pl[i][2] = Cnt(pl[i][1]) * pl[i][3]
 
 PsiAtOne       == Psi(One)   = One
 PsiPrimeAtOne  == PsiP(One)  = Red(<<M1, NN>>)            \* psi'(1)  = <k>
@@ -148,23 +152,32 @@ PsiDPrimeAtOne == PsiPP(One) = Red(<<M2, NN>>)            \* psi''(1) = <k^2 - k
 
 \* coeff(D psi)[k-1] = k * coeff(psi)[k], and once more for the second derivative
 DerivCoeff ==
-    /\ Len(D(Coef)) = Kmx
-    /\ \A k \in 1..Kmx : D(Coef)[k] = k * Coef[k + 1]
-    /\ Len(D(D(Coef))) = (IF Kmx >= 1 THEN Kmx - 1 ELSE 0)
-    /\ \A k \in 2..Kmx : D(D(Coef))[k - 1] = k * (k - 1) * Coef[k + 1]
+    LET c   == Coef
+        dc  == D(c)
+        ddc == D(dc)
+        K   == Len(c) - 1
+    IN /\ K = Kmx
+       /\ Len(dc) = K
+       /\ \A k \in 1..K : dc[k] = k * c[k + 1]
+       /\ Len(ddc) = (IF K >= 1 THEN K - 1 ELSE 0)
+       /\ \A k \in 2..K : ddc[k - 1] = k * (k - 1) * c[k + 1]
 
 \* the coefficient-wise polynomials are the node-wise averages of x^deg and its derivatives
-NodeNum(f(_), a, b, s) ==      \* Sum_u f(deg u) a^(deg u - s) b^(Kmx - deg u), nodes of degree >= s
-    SeqSum([u \in 1..NN |-> IF Deg[u] >= s THEN f(Deg[u]) * Pow(a, Deg[u] - s) * Pow(b, Kmx - Deg[u]) ELSE 0])
+NodeNum(f(_), a, b, s, K) ==   \* Sum_u f(deg u) a^(deg u - s) b^(K - deg u), nodes of degree >= s
+    SeqSum([u \in 1..NN |-> IF deg[u] >= s THEN f(deg[u]) * Pow(a, deg[u] - s) * Pow(b, K - deg[u]) ELSE 0])
 NodeWise ==
-    \A i \in 1..Len(XS) :
+    LET K   == Kmx
+        c   == Coef
+        dc  == D(c)
+        ddc == D(dc)
+    IN \A i \in 1..Len(XS) :
        LET a == XS[i][1]
            b == XS[i][2]
-       IN /\ Psi(XS[i])  = Red(<<NodeNum(LAMBDA k : 1, a, b, 0), NN * Pow(b, Kmx)>>)
-          /\ (Kmx >= 1) => PsiP(XS[i])  = Red(<<NodeNum(LAMBDA k : k, a, b, 1), NN * Pow(b, Kmx - 1)>>)
-          /\ (Kmx >= 2) => PsiPP(XS[i]) = Red(<<NodeNum(LAMBDA k : k * (k - 1), a, b, 2), NN * Pow(b, Kmx - 2)>>)
-          /\ (Kmx = 0) => PsiP(XS[i]) = <<0, 1>>
-          /\ (Kmx <= 1) => PsiPP(XS[i]) = <<0, 1>>
+       IN /\ PolyAt(c, XS[i]) = Red(<<NodeNum(LAMBDA k : 1, a, b, 0, K), NN * Pow(b, K)>>)
+          /\ (K >= 1) => PolyAt(dc, XS[i])  = Red(<<NodeNum(LAMBDA k : k, a, b, 1, K), NN * Pow(b, K - 1)>>)
+          /\ (K >= 2) => PolyAt(ddc, XS[i]) = Red(<<NodeNum(LAMBDA k : k * (k - 1), a, b, 2, K), NN * Pow(b, K - 2)>>)
+          /\ (K = 0) => PolyAt(dc, XS[i]) = <<0, 1>>
+          /\ (K <= 1) => PolyAt(ddc, XS[i]) = <<0, 1>>
 
 DegDef    == (kind = "G") => deg = GraphDeg
 Handshake == (kind = "G") => M1 = 2 * Edges
@@ -172,22 +185,25 @@ Handshake == (kind = "G") => M1 = 2 * Edges
 \* rows of Pnk for k >= 1 sum to 1; pair counts are symmetric
 PnkRows ==
     (kind = "G") =>
-       \A i \in 1..Len(Present) :
-          LET k1 == Present[i] IN
-             /\ (k1 >= 1) =>
-                  /\ SeqSum([j \in 1..Len(Present) |-> Pairs(k1, Present[j])]) = k1 * Cnt(k1)
+       LET pr == Present IN
+       \A i \in 1..Len(pr) :
+          LET k1    == pr[i]
+              slots == k1 * Cnt(k1)
+          IN /\ (k1 >= 1) =>
+                  /\ SeqSum([j \in 1..Len(pr) |-> Pairs(k1, pr[j])]) = slots
                   /\ LET row == PnkRow(k1)
-                     IN  SeqSum([j \in 1..Len(row) |-> row[j][2] * ((k1 * Cnt(k1)) \div row[j][3])]) = k1 * Cnt(k1)
-             /\ \A j \in 1..Len(Present) : Pairs(k1, Present[j]) = Pairs(Present[j], k1)
-             /\ (k1 = 0) => \A j \in 1..Len(Present) : Pairs(k1, Present[j]) = 0
+                     IN  SeqSum([j \in 1..Len(row) |-> row[j][2] * (slots \div row[j][3])]) = slots
+             /\ \A j \in 1..Len(pr) : Pairs(k1, pr[j]) = Pairs(pr[j], k1)
+             /\ (k1 = 0) => \A j \in 1..Len(pr) : Pairs(k1, pr[j]) = 0
 
 \* R0 is what the code computes, T psi''(1)/psi'(1), and is T(d-1) on a d-regular graph
 R0Identities ==
-    \A i \in 1..Len(TS) :
+    LET p1 == PsiP(One)
+        p2 == PsiPP(One)
+    IN \A i \in 1..Len(TS) :
        LET T == TS[i] IN
-          /\ (M1 > 0) => R0(T) = Red(<<T[1] * PsiPP(One)[1] * PsiP(One)[2],
-                                       T[2] * PsiPP(One)[2] * PsiP(One)[1]>>)
-          /\ (Deg[1] >= 1 /\ \A u \in 1..NN : Deg[u] = Deg[1]) => R0(T) = Red(<<T[1] * (Deg[1] - 1), T[2]>>)
+          /\ (M1 > 0) => R0(T) = Red(<<T[1] * p2[1] * p1[2], T[2] * p2[2] * p1[1]>>)
+          /\ (deg[1] >= 1 /\ \A u \in 1..NN : deg[u] = deg[1]) => R0(T) = Red(<<T[1] * (deg[1] - 1), T[2]>>)
           /\ (M1 = 0) <=> R0(T) = <<0, 0>>
 
 -----------------------------------------------------------------------------
@@ -203,8 +219,8 @@ Init == /\ kind \in {"G", "D"}
 
 Record ==
     IF kind = "G"
-    THEN <<"G", n, w, Deg, PkList, PnkList, Coef, D(Coef), D(D(Coef)), EvalTab, <<NN, M1, M2>>, R0List>>
-    ELSE <<"D", Deg, PkList, Coef, D(Coef), D(D(Coef)), EvalTab, <<NN, M1, M2>>, R0List>>
+    THEN <<"G", n, w, deg, PkList, PnkList, Coef, D(Coef), D(D(Coef)), EvalTab, <<NN, M1, M2>>, R0List>>
+    ELSE <<"D", deg, PkList, Coef, D(Coef), D(D(Coef)), EvalTab, <<NN, M1, M2>>, R0List>>
 
 Evaluate == /\ phase = "in"
             /\ phase' = "out"
@@ -214,7 +230,18 @@ Evaluate == /\ phase = "in"
 Next == Evaluate
 Spec == Init /\ [][Next]_vars
 
-\* every identity, for configurations that want a single name
-Identities == /\ DegDef /\ PkSumsToOne /\ PsiAtOne /\ PsiPrimeAtOne /\ PsiDPrimeAtOne
-              /\ DerivCoeff /\ NodeWise /\ Handshake /\ PnkRows /\ R0Identities
+\* The identities are state predicates of the (frozen) input.  TLC evaluates invariants of
+\* initial states on its single start-up thread and those of successor states on all
+\* workers, so the configurations name the guarded forms: every input is judged exactly
+\* once, in the state reached by Evaluate.
+I_DegDef == (phase = "out") => DegDef
+I_PkSumsToOne == (phase = "out") => PkSumsToOne
+I_PsiAtOne == (phase = "out") => PsiAtOne
+I_PsiPrimeAtOne == (phase = "out") => PsiPrimeAtOne
+I_PsiDPrimeAtOne == (phase = "out") => PsiDPrimeAtOne
+I_DerivCoeff == (phase = "out") => DerivCoeff
+I_NodeWise == (phase = "out") => NodeWise
+I_Handshake == (phase = "out") => Handshake
+I_PnkRows == (phase = "out") => PnkRows
+I_R0Identities == (phase = "out") => R0Identities
 =============================================================================
